@@ -33,11 +33,15 @@ func main() {
 			"each store is listed, every file checked (name = base/id[0:4]/id[.cacnk]; raw file == chunk bytes; .cacnk file = exactly one standard zstd frame by an own frame walker, decoding to the chunk under klauspost, under the datadog build (`desync verify`) and under the system's reference libzstd 1.5.4 through a cgo helper); the repository's fixture stores are read by both builds; " +
 			"directories holding both formats of the same IDs are accessed by clients of either format (HasChunk, GetChunk, HTTP handler, Verify with repair, Prune): the other format's files are reported missing / never served and stay byte-identical. " +
 			"Non-trivial: store written by one encoder and read by another decoder, or a mixed-format directory operation; distinct by (leg, writer, format, chunk class, operation)",
-		Assumptions:   []string{"casync itself is not available: 'casync-written stores' are the repository's fixture stores; the reference libzstd is the system's 1.5.4 and the vendored 1.5.2 of the datadog build"},
-		Cases:         cases,
-		Run:           run,
-		ParentSetup:   parentSetup,
-		Setup:         func(c *harness.Ctx) { cli = os.Getenv("VERIF_CLI"); cliDD = os.Getenv("VERIF_CLI_DD"); zcheck = os.Getenv("VERIF_ZCHECK") },
+		Assumptions: []string{"casync itself is not available: 'casync-written stores' are the repository's fixture stores; the reference libzstd is the system's 1.5.4 and the vendored 1.5.2 of the datadog build"},
+		Cases:       cases,
+		Run:         run,
+		ParentSetup: parentSetup,
+		Setup: func(c *harness.Ctx) {
+			cli = os.Getenv("VERIF_CLI")
+			cliDD = os.Getenv("VERIF_CLI_DD")
+			zcheck = os.Getenv("VERIF_ZCHECK")
+		},
 		MinNonTrivial: 20,
 		CaseTimeout:   180 * time.Second,
 	})
